@@ -118,7 +118,8 @@ class Scipy(AbstractIntegrator):
             method=self.method,
         )
 
-        if res.success:
+        # A trajectory that contains NaN or inf is no solution, whatever the solver says
+        if res.success and bool(np.isfinite(res.y).all()):
             t = np.atleast_1d(np.array(res.t, dtype=float))
             y = np.atleast_2d(np.array(res.y, dtype=float).T)
 
